@@ -487,6 +487,8 @@ func mergeLoc(c *Term, a, b Loc) Loc {
 		}
 		out.Arr = Ite(c, a.Arr, b.Arr)
 		out.Idx = Ite(c, a.Idx, b.Idx)
+	case LArr:
+		out.Arr = Ite(c, a.Arr, b.Arr)
 	}
 	return out
 }
@@ -531,6 +533,8 @@ func locEqual(a, b Loc) *Term {
 		return And(Eq(a.Arr, b.Arr), Eq(a.Idx, b.Idx))
 	case LGlobal:
 		return Bool(a.Glob == b.Glob && samePath(a.Path, b.Path))
+	case LArr:
+		return Eq(a.Arr, b.Arr)
 	}
 	return False
 }
